@@ -284,9 +284,10 @@ def run(ctx):
 
     # TimingData reads the strings through these very parsers
     from simfile.ssc import SSCSimfile
+    from simfile.sm import SMSimfile
     from simfile.timing import TimingData
     for i in range(ctx.scale(50, 500)):
-        sf = SSCSimfile.blank()
+        sf = (SSCSimfile if i % 4 < 2 else SMSimfile).blank()
         vals = {}
         for key in ("BPMS", "STOPS", "DELAYS", "WARPS"):
             k = rng.randrange(0, 4)
@@ -298,8 +299,14 @@ def run(ctx):
         sf["OFFSET"] = str(off)
         case = {"stream": "timingdata", "values": {k: [[str(b), str(v)] for b, v in r] for k, r in vals.items()}, "offset": str(off)}
         res.case(case)
+        # a TimingData is a value: it carries the strings its simfile had when it was built, also when the simfile is
+        # retimed before the fields are first looked at (the usual way to keep the old timing beside the new one)
+        retimed = i % 2 == 1
         try:
             td = TimingData(sf)
+            if retimed:
+                case["history"] = "simfile retimed after TimingData(simfile), before its fields were read"
+                sf["BPMS"] = "0.000=200.000"; sf["STOPS"] = "1.000=9.000"; sf["DELAYS"] = ""; sf["WARPS"] = "2.000=1.000"; sf["OFFSET"] = "0.000"
             got = {"BPMS": td.bpms, "STOPS": td.stops, "DELAYS": td.delays, "WARPS": td.warps}
             ok = all([(e.beat, e.value) for e in got[k]] == vals[k] for k in vals) and td.offset == off
         except Exception as ex:
